@@ -33,6 +33,23 @@ def outcome_of(fn):
 
 
 def do_store(mods, path, tname, ident, v, rng, errv):
+    rec = _do_store(mods, path, tname, ident, v, rng, errv)
+    rec.setdefault("rberr", False)
+    return rec
+
+
+class _Raised:
+    """a read-back that raised: reported through the record (clause "readback")"""
+
+
+def rd(fn):
+    try:
+        return fn()
+    except Exception:
+        return _Raised
+
+
+def _do_store(mods, path, tname, ident, v, rng, errv):
     """Perform one store of v; returns dict(out, before, after, around0, around1, rb)."""
     ffi, lib = mods["api"]
     rec = {"around0": [], "around1": []}
@@ -40,7 +57,7 @@ def do_store(mods, path, tname, ident, v, rng, errv):
         out, p = outcome_of(lambda: ffi.new(tname + " *", v))
         n = ffi.sizeof(tname)
         rec.update(out=out, before=[0] * n, after=list(bytes(ffi.buffer(p))) if p is not None else [0] * n)
-        rb = p[0] if p is not None else None
+        rb = rd(lambda: p[0]) if p is not None else None
     elif path == "item":
         a = ffi.new(tname + "[3]")
         buf = ffi.buffer(a)
@@ -54,7 +71,7 @@ def do_store(mods, path, tname, ident, v, rng, errv):
         b1 = bytes(buf)
         rec.update(out=out, before=list(b0[n:2 * n]), after=list(b1[n:2 * n]),
                    around0=list(b0[:n] + b0[2 * n:]), around1=list(b1[:n] + b1[2 * n:]))
-        rb = a[1]
+        rb = rd(lambda: a[1])
     elif path == "field":
         s = ffi.new("struct s_%s *" % ident)
         buf = ffi.buffer(s)
@@ -68,7 +85,7 @@ def do_store(mods, path, tname, ident, v, rng, errv):
         b1 = bytes(buf)
         rec.update(out=out, before=list(b0[off:off + n]), after=list(b1[off:off + n]),
                    around0=list(b0[:off] + b0[off + n:]), around1=list(b1[:off] + b1[off + n:]))
-        rb = s.f
+        rb = rd(lambda: s.f)
     elif path.startswith("global_"):
         f2, l2 = mods[path[7:]]
         name = "g_" + ident
@@ -82,7 +99,7 @@ def do_store(mods, path, tname, ident, v, rng, errv):
         out, _ = outcome_of(lambda: setattr(l2, name, v))
         b1 = bytes(buf)
         rec.update(out=out, before=list(b0), after=list(b1))
-        rb = getattr(l2, name)
+        rb = rd(lambda: getattr(l2, name))
     elif path.startswith("arg_"):
         which = path[4:]
         f2, l2 = mods["api" if which == "libffi" else which]
@@ -118,7 +135,8 @@ def do_store(mods, path, tname, ident, v, rng, errv):
             out = "other:" + captured[0].__name__
         rec.update(out=out, before=list(bytes(ffi.buffer(e))), after=list(b1))
         rb = got if out == "ok" else None
-    rec["hasrb"] = rec["out"] == "ok" and rb is not None
+    rec["rberr"] = rb is _Raised and rec["out"] == "ok"
+    rec["hasrb"] = rec["out"] == "ok" and rb is not None and rb is not _Raised
     rec["rb"] = bv(int(rb)) if rec["hasrb"] else bv(0)
     return rec
 
@@ -137,6 +155,17 @@ def run(ctx):
         ctx.add_tlc("sanity:" + variant, r, require_ok=False, count_states=False)
         if inv not in r.out or "is violated" not in r.out:
             raise core.MachineryError("broken variant %s not rejected" % variant)
+    # unbounded side check (SMT): the same laws at the true widths for ALL integers v
+    ok, out, wall = core.apalache("APA_IntConv", "Laws")
+    if not ok:
+        raise core.MachineryError("Apalache refutes the store laws at true widths:\n" + out[-2000:])
+    ctx.cov["apalache"] = [{"module": "APA_IntConv", "inv": "Laws", "outcome": "NoError", "wall_s": round(wall, 1),
+                            "scope": "w in {8,16,32,64}, long long = 64 bits, v in Int (unbounded)"}]
+    if not quick:
+        ok, out, wall = core.apalache("APA_IntConv", "WrongLaw")
+        if ok:
+            raise core.MachineryError("Apalache accepted a deliberately wrong bound")
+        ctx.cov["apalache"].append({"module": "APA_IntConv", "inv": "WrongLaw", "outcome": "refuted (expected)"})
     # ---------------------------------------------------------------- binding
     mods = build_modules(ctx.tmp)
     facts = gcc_type_facts(ctx.tmp)
